@@ -117,7 +117,7 @@ class LedgerSim:
             reset_horizon(False)
             kk = config.get('k', 1)
             h0 = kk * 1_050_000 - 1 - config.get('j', 0) % 4
-            cs, root, _f = W.hollow_base_far(h0, HARD_TARGET if hard else W.TRIVIAL_TARGET)
+            cs, root, _f = W.hollow_base_far(h0, HARD_TARGET if hard else W.TRIVIAL_TARGET, salt=config.get('salt', 0))
             fts = W.BASE_TS - 10_000_000
             filler_ts = (lambda h: fts)
         elif base == 'hboundary2':
@@ -126,7 +126,8 @@ class LedgerSim:
             h0 = 171_359
             e1, e2 = config.get('elapsed', 1_209_600), config.get('elapsed2', 604_800)
             st1, st2 = W.BASE_TS - e1, W.BASE_TS - e2
-            cs, root, root2 = W.two_root_base(h0, HARD_TARGET if hard else W.TRIVIAL_TARGET, 171_360 - 10_080, st1, st2)
+            cs, root, root2 = W.two_root_base(h0, HARD_TARGET if hard else W.TRIVIAL_TARGET, 171_360 - 10_080, st1, st2,
+                                              salt=config.get('salt', 0))
             fts = W.BASE_TS - 10_000_000
             filler_ts = (lambda h: st1 if h == 171_360 - 10_080 else fts)
             self.second_root = (root2, (lambda h: st2 if h == 171_360 - 10_080 else fts))
@@ -136,14 +137,22 @@ class LedgerSim:
             h0 = 171_360 - k
             elapsed = config.get('elapsed', 1_209_600)
             self.start_ts = W.BASE_TS - elapsed
-            cs, root = W.hollow_base_with_start(h0, HARD_TARGET if hard else W.TRIVIAL_TARGET,
-                                                171_360 - 10_080, self.start_ts)
+            if config.get('salt'):
+                cs, root, _f = W.hollow_base_far(h0, HARD_TARGET if hard else W.TRIVIAL_TARGET, salt=config['salt'],
+                                                 over={171_360 - 10_080: W._filler_block(self.start_ts)})
+            else:
+                cs, root = W.hollow_base_with_start(h0, HARD_TARGET if hard else W.TRIVIAL_TARGET,
+                                                    171_360 - 10_080, self.start_ts)
             st = self.start_ts
             fts = W.BASE_TS - 10_000_000
             filler_ts = (lambda h: st if h == 171_360 - 10_080 else fts)
         else:
             reset_horizon(False)
-            cs, root, _f = W.hollow_base(W.H_REAL, HARD_TARGET if hard else W.TRIVIAL_TARGET)
+            if config.get('salt'):
+                # a base of this run's own (O(1) index): no object of this run exists in any other run of the process
+                cs, root, _f = W.hollow_base_far(W.H_REAL, HARD_TARGET if hard else W.TRIVIAL_TARGET, salt=config['salt'])
+            else:
+                cs, root, _f = W.hollow_base(W.H_REAL, HARD_TARGET if hard else W.TRIVIAL_TARGET)
             fts = W.BASE_TS - 10_000_000
             filler_ts = (lambda h: fts)
         self.cs = cs
@@ -167,6 +176,8 @@ class LedgerSim:
         self.snapshots = []
         self.sig_cache = {}
         self.dead = False
+        self._anc_cache = {}
+        self.rejected_cands = []      # forged candidates the node has already refused once (offered again later)
 
     # ---- helpers
     def parent_of(self, t):
@@ -227,6 +238,46 @@ class LedgerSim:
             fees += fee
         return txs, fees, used
 
+    def sample_from_ancestors(self, block, cs):
+        """Necessary condition, independent of the selection arithmetic: every 4-byte slice of the chain sample occurs
+        (with wrap-around) in the encoding of some ancestor of the block - the selected blocks are ancestors."""
+        s0 = block.header.summary
+        if s0.height == 0:
+            return True
+        sample = block.header.pow_evidence.chain_sample
+        if len(sample) != 32:
+            return True
+        sers = []
+        idx = cs.block_by_height_by_hash.get(s0.previous_block_hash)
+        if idx is None:
+            return True
+        if hasattr(idx, 'over'):           # O(1) trusted base: the shared filler plus explicit entries
+            base_blocks = [idx.filler] + [b for h, b in idx.over.items() if h < s0.height]
+        else:
+            key_ = ('base', id(idx))
+            base_blocks = self._anc_cache.get(key_)
+            if base_blocks is None:
+                seen, base_blocks = set(), []
+                for h, b in idx.items():
+                    if h < s0.height and id(b) not in seen:
+                        seen.add(id(b))
+                        base_blocks.append(b)
+                if len(idx) > 1000:
+                    self._anc_cache[key_] = base_blocks
+        for b in base_blocks:
+            k_ = id(b)
+            ser = self._anc_cache.get(k_)
+            if ser is None:
+                raw = b.serialize()
+                ser = self._anc_cache[k_] = raw + raw[:3]
+            sers.append(ser)
+        for i in range(0, 32, 4):
+            sl = sample[i:i + 4]
+            if not any(sl in ser for ser in sers):
+                return False
+        self.res.bump('evidence_samples_checked')
+        return True
+
     # ---- delivery + oracle
     def deliver(self, block, now, expect, label):
         """expect: 'honest' (assembled by the node's own path in a valid setting), 'forgery', 'free'."""
@@ -273,6 +324,12 @@ class LedgerSim:
                     res.bump('other:' + broken[0][0] + '/' + broken[0][1])
                 self.dead = True   # real state and reference now disagree; stop interpreting
                 return None
+            if self.prop == 'C05' and not self.sample_from_ancestors(block, before):
+                res.violate('C05', 'C05/evidence-sample-not-from-ancestors',
+                            'an accepted block carries proof-of-work evidence whose chain sample contains bytes that occur in none '
+                            'of the block\'s ancestors (%s)' % label.get('kind', 'mine'))
+                self.dead = True
+                return None
             self.cs = after
             self.chain.add(block)
             self.stored.append(bid)
@@ -281,6 +338,8 @@ class LedgerSim:
             return bid
         # rejected
         res.bump('rejected')
+        if broken and expect == 'forgery' and len(self.rejected_cands) < 12:
+            self.rejected_cands.append((block, now, dict(label)))
         if expect == 'honest' and not broken:
             if self.prop in ('C05', 'C01', 'C02'):
                 res.violate(self.prop, '%s/valid-block-rejected' % self.prop,
@@ -323,7 +382,8 @@ class LedgerSim:
             self.res.bump('accepted')
             return
         try:
-            block = mine_honest(view, txs, key(op.get('miner', 0) % N_KEYS), ts, nonce0=op.get('nonce0', 0))
+            block = mine_honest(view, txs, key(op.get('miner', 0) % N_KEYS), ts, nonce0=op.get('nonce0', 0),
+                                data=(b's%d' % self.cfg['salt']) if self.cfg.get('salt') else b'')
         except Unminable:
             self.res.bump('unminable')
             return
@@ -365,6 +425,41 @@ class LedgerSim:
             # Re-adding a stored block is not forbidden by C01-C05; C04 judges heads. Only count.
             self.res.bump('probe:reoffer_changed_state')
         # keep the previous value: the reference has no notion of "arrived twice"
+
+    def op_reoffer_rejected(self, op):
+        """A candidate that was refused before is offered again (same bytes), possibly much later: whatever the node
+        remembered from the first attempt, the verdict must be the same."""
+        if not self.rejected_cands:
+            return
+        block, now, label = self.rejected_cands[op.get('n', 0) % len(self.rejected_cands)]
+        if block.header.summary.previous_block_hash not in self.chain.blocks:
+            return
+        lab = dict(label, kind='again:' + str(label.get('kind')), via=op.get('via', 'memory'))
+        self.res.bump('probe:refused_candidate_offered_again')
+        self.deliver(block, now, 'forgery', lab)
+
+    def op_rebundle_rejected(self, op):
+        """The transactions of a refused block come back inside a different block on the same parent."""
+        if not self.rejected_cands:
+            return
+        block, now, label = self.rejected_cands[op.get('n', 0) % len(self.rejected_cands)]
+        s0 = block.header.summary
+        rb = self.chain.blocks.get(s0.previous_block_hash)
+        if rb is None or len(block.transactions) < 2 or s0.height != rb.height + 1:
+            return
+        from refmodel.rules import is_reward_shape
+        others = [t for t in block.transactions[1:] if not is_reward_shape(t)]
+        if not others:
+            return
+        try:
+            reward = reward_tx(s0.height, [(rules.subsidy(s0.height), key(op.get('miner', 0) % N_KEYS))], b'again')
+            blk = seal(view_at(self.cs, rb.id), s0.height, rb.id, rb.ts + max(1, op.get('dt', 7)),
+                       self.expected_target(rb, rb.ts + max(1, op.get('dt', 7))), [reward] + others)
+        except (Unminable, ValueError, OverflowError, KeyError, struct.error, TypeError):
+            return
+        lab = dict(label, kind='rebundled:' + str(label.get('kind')), via=op.get('via', 'memory'))
+        self.res.bump('probe:refused_transactions_in_another_block')
+        self.deliver(blk, blk.header.summary.timestamp, 'forgery', lab)
 
     def op_snapshot(self, op):
         if len(self.snapshots) < 4:
